@@ -4,6 +4,46 @@ mod store;
 mod util;
 mod c26;
 mod c27;
+mod c24;
+mod c44;
+
+use serde_json::{json, Value};
+use std::future::Future;
+use std::pin::Pin;
+
+/// Shared driver loop: read cases (or one replay), run each in its own task (a panic in the
+/// code under test is data: reported as a violation of the case), merge, write the result file.
+pub fn run_cases(kind: &'static str, f: fn(Value) -> Pin<Box<dyn Future<Output = util::Acc> + Send>>) {
+    use vcommon::util::{arg, read_ndjson};
+    let rt = tokio::runtime::Builder::new_multi_thread().worker_threads(4).enable_all().build().unwrap();
+    let out_path = arg("--out").expect("--out");
+    let mut acc = util::Acc::default();
+    rt.block_on(async {
+        let cases: Vec<Value> = if let Some(rp) = arg("--replay") {
+            let v: Value = serde_json::from_str(&std::fs::read_to_string(&rp).unwrap()).unwrap();
+            let mut c = v["case"].clone();
+            if !v["config"].is_null() { c["configs"] = json!([v["config"]]); }
+            vec![c]
+        } else {
+            read_ndjson(&arg("--cases").expect("--cases"))
+        };
+        for c in cases {
+            let c2 = c.clone();
+            match tokio::spawn(f(c2)).await {
+                Ok(a) => {
+                    acc.evaluations += a.evaluations;
+                    for v in a.violations { acc.violation(v); }
+                    acc.tool_errors.extend(a.tool_errors);
+                    for s in a.samples { if acc.samples.len() < 3 { acc.samples.push(s); } }
+                    acc.nontrivial.extend(a.nontrivial);
+                    for (k, n) in a.counters { if k != "violations_total" { acc.bump(&k, n); } }
+                }
+                Err(j) => acc.violation(json!({"kind":kind,"case":c,"message":format!("panic in the code under test: {j}")})),
+            }
+        }
+    });
+    acc.finish(&out_path);
+}
 
 fn main() {
     let a: Vec<String> = std::env::args().collect();
@@ -11,8 +51,10 @@ fn main() {
     match cmd {
         "c26" => c26::main(),
         "c27" => c27::main(),
+        "c24" => c24::main(),
+        "c44" => c44::main(),
         _ => {
-            eprintln!("usage: vfiles <c26|c27|c25|c24|c44> [options]");
+            eprintln!("usage: vfiles <c26|c27|c24|c44> [options]");
             std::process::exit(2);
         }
     }
